@@ -339,6 +339,36 @@ func TestC16(t *testing.T) {
 		}
 	}
 	ev.Class("signature-vocabulary", int64(8*len(vocab)))
+	// headers as real profiles carry them: version x class x colour space x PCS x platform x illuminant (D50 as
+	// ICC encodes it, D65, near-D65, equal energy) x intent; a decoder that "repairs" implausible combinations no
+	// longer reports the bytes that are there
+	{
+		var nr int64
+		illums := [][3]uint32{{0xF6D6, 0x10000, 0xD32D}, {0xF352, 0x10000, 0x116CF}, {0xF352 + 0x30, 0x10000, 0x116CF - 0x41}, {0x10000, 0x10000, 0x10000}, {0xF6D5, 0x10000, 0xD32C}}
+		for _, ver := range [][2]byte{{2, 0x10}, {2, 0x40}, {4, 0x20}, {4, 0x40}, {5, 0}} {
+			for _, class := range []string{"scnr", "mntr", "prtr", "link", "spac", "abst", "nmcl"} {
+				for ci, cs := range []string{"RGB ", "GRAY", "CMYK", "Lab "} {
+					for pi, pcs := range []string{"XYZ ", "Lab "} {
+						for ii, il := range illums {
+							h := base()
+							h[8], h[9] = ver[0], ver[1]
+							copy(h[12:], class)
+							copy(h[16:], cs)
+							copy(h[20:], pcs)
+							copy(h[40:], []string{"APPL", "MSFT", "SGI ", "SUNW", "\x00\x00\x00\x00"}[(ci+pi+ii)%5])
+							binary.BigEndian.PutUint32(h[64:], uint32((ci+ii)%4))
+							binary.BigEndian.PutUint32(h[68:], il[0])
+							binary.BigEndian.PutUint32(h[72:], il[1])
+							binary.BigEndian.PutUint32(h[76:], il[2])
+							run(h, fmt.Sprintf("v%d.%x %s %s/%s illuminant %x", ver[0], ver[1], class, cs, pcs, il))
+							nr++
+						}
+					}
+				}
+			}
+		}
+		ev.Class("realistic-combinations", nr)
+	}
 	// pairs: a defined signature in one field and a small number in a numeric field, written big-endian (as the
 	// specification says) or byte-swapped (as a careless writer would): a decoder that second-guesses one field
 	// from another no longer reports the bytes that are there
